@@ -32,6 +32,19 @@ def build_problem(model: dict):
     _load()
     from nucs.problems.problem import Problem
 
+    n = len(model["shr"])
+    inc = model.get("_incremental")
+    if inc is not None and list(model["idx"]) == list(range(n)) and not any(model["off"]):
+        # the same model built step by step through add_variable / add_variables / add_propagators (C13)
+        k = max(1, min(inc, n))
+        p = Problem([(lo, hi) for lo, hi in model["shr"][:k]])
+        rest = [(lo, hi) for lo, hi in model["shr"][k:]]
+        if len(rest) == 1:
+            p.add_variable(rest[0])
+        elif rest:
+            p.add_variables(rest)
+        p.add_propagators([(list(vs), ALG_INDEX[alg], list(params)) for vs, alg, params in model["props"]])
+        return p
     p = Problem(
         [(lo, hi) for lo, hi in model["shr"]],
         list(model["idx"]),
@@ -48,17 +61,20 @@ def build_solver(problem, cfg: dict, stack_max_height: int = 128, decision_domai
     kw = {}
     if decision_domains is not None:
         kw["decision_domains"] = decision_domains
-    return BacktrackSolver(
-        problem,
-        consistency_alg_idx=cfg["cons"],
-        var_heuristic_idx=cfg["var_h"],
-        var_heuristic_params=copy.deepcopy(cfg["var_params"]),
-        dom_heuristic_idx=cfg["dom_h"],
-        dom_heuristic_params=copy.deepcopy(cfg["dom_params"]),
-        stack_max_height=stack_max_height,
-        log_level="ERROR",
-        **kw,
-    )
+    # defaults are left to the constructor (its mutable default arguments are part of what is under test)
+    if cfg["var_params"] != [[]]:
+        kw["var_heuristic_params"] = copy.deepcopy(cfg["var_params"])
+    if cfg["dom_params"] != [[]]:
+        kw["dom_heuristic_params"] = copy.deepcopy(cfg["dom_params"])
+    if cfg["cons"] != 0:
+        kw["consistency_alg_idx"] = cfg["cons"]
+    if cfg["var_h"] != 0:
+        kw["var_heuristic_idx"] = cfg["var_h"]
+    if cfg["dom_h"] != 0:
+        kw["dom_heuristic_idx"] = cfg["dom_h"]
+    if stack_max_height != 128:
+        kw["stack_max_height"] = stack_max_height
+    return BacktrackSolver(problem, log_level="ERROR", **kw)
 
 
 def engine_model(model: dict, problem) -> dict:
